@@ -104,7 +104,7 @@ func TestVerifEvents(t *testing.T) {
 		if p.Namespaced {
 			ns = "ns1"
 		}
-		t1 := w.sim.GetObj(p.group(), p.Resource, ns, "t1")
+		t1 := w.sim.GetObj(p.group(), p.Resource, ns, sc.tname)
 		// more targets: selected, unselected, unselected but carrying the finalizer
 		for _, v := range []string{"sel", "unsel", "unsel-fin"} {
 			c := vs.DeepCopy(t1).(map[string]interface{})
